@@ -56,3 +56,8 @@ Proof. vm_compute. reflexivity. Qed.
 
 Lemma sweep_matches_reference : forallb matches_reference propdefs = true.
 Proof. vm_compute. reflexivity. Qed.
+
+(* every wrapper-creation site of the sources is one the access-path model knows (C12-1-like rewrites that construct
+   wrappers directly, or call the factory on another class, fail here) *)
+Lemma sweep_wrap_sites : forallb site_ok wrap_sites = true.
+Proof. vm_compute. reflexivity. Qed.
